@@ -104,7 +104,7 @@ CHECKS["C10"] = dict(
     technique="explicit-state BFS to fixpoint on the real Rebalancer(RoundRobin) with scripted meters and a frozen clock; invariants per transition and bounded-liveness continuations from every reachable state",
     text="Every reachable (membership, configured weights, effective weights, timer) state over rating vectors {0,0.4,1}^3, readiness, advances {backoff/2, backoff+eps}, Upsert/Remove with weights from the alphabet, back-off {1s,10s}: weights within [1,max(4096,configured)], adjustments at least one back-off apart, no outlier share increase, configured weights restored by every membership change; from every state a persistent outlier loses share within two back-off rounds unless all others are at the cap, and equal ratings restore configured proportions within six adjustments.",
     note="scripted meters through the public RebalancerMeter option; rotation position projected out of the key; pools of <= 3 servers (A4)",
-    parts=[dict(bin="vh", part="c10", shards=16, gang=True, budget=dict(quick=90, thorough=1500))])
+    parts=[dict(bin="vh", part="c10", shards=16, gang=True, budget=dict(quick=240, thorough=1500))])
 
 CHECKS["C19"] = dict(
     level="exploration", engine="enum", design_ref="DESIGN.md §5 C19",
